@@ -485,7 +485,7 @@ def _kinds():
     return comps_c14x
 
 
-def kinds_norm(dump, meta=True, opaque=True, anyrep=True):
+def kinds_norm(dump, meta=True, opaque=True, anyrep=True, dflt=True):
     """xdump without what apply cannot be asked to reproduce (LYD_NEW / when flags, private pointers) and optionally
     without metadata, opaque subtrees, or with anydata values reduced to 'has a value' (representation-insensitive)"""
     out = []
@@ -506,99 +506,175 @@ def kinds_norm(dump, meta=True, opaque=True, anyrep=True):
                 continue
             out.append(":".join(f[:4] + f[6:]))
             continue
-        f[4] = "d" if "d" in f[4] else ""
+        f[4] = "d" if dflt and "d" in f[4] else ""
         f[5] = ""
         if not anyrep and f[3].startswith("a"):
-            f[3] = "aN" if f[3].startswith("aN") else "a*"
+            f[3] = "a"
         out.append(":".join(f[:6] + (f[6:] if meta else [])))
     return ";".join(out)
 
 
+def kn_ident(S, n):
+    """identity of a dump node among its siblings (list: key values, leaf-list: value)"""
+    if n.opq:
+        return None
+    d = S.get(n.key(), {})
+    if d.get("k") == "list":
+        return (n.key(),) + tuple(c.val for c in n.children[:d.get("nk", 0)])
+    if d.get("k") == "leaf-list":
+        return (n.key(), n.val)
+    return (n.key(),)
+
+
+def kn_index(S, forest):
+    """path -> node for every data node; the key () maps to a pseudo root whose children are the top-level nodes"""
+    K = _kinds()
+    root = K.XN()
+    root.mod, root.name, root.opq, root.val, root.flags, root.priv, root.meta, root.children = "", "", False, "i", "", "", [], forest
+    ix = {(): root}
+
+    def rec(lst, path):
+        for n in lst:
+            if not n.opq:
+                q = path + (kn_ident(S, n),)
+                ix[q] = n
+                rec(n.children, q)
+    rec(forest, ())
+    return ix
+
+
+def kn_is_any(S, n):
+    return (not n.opq) and S.get(n.key(), {}).get("k") in ("anydata", "anyxml")
+
+
+def kn_carry(S, trees):
+    """what the diff functions do with what they do not look at: the result has the data nodes of the LAST tree of the
+    list, but a node keeps its metadata and its opaque children from the first tree (in application order) that has it"""
+    ixs = [kn_index(S, t) for t in trees]
+
+    def src(path):
+        for ix in ixs:
+            if path in ix:
+                return ix[path]
+
+    def rec(lst, path):
+        out = []
+        for n in lst:
+            if n.opq:
+                continue
+            q = path + (kn_ident(S, n),)
+            o = src(q)
+            m = n.copy(deep=False)
+            m.meta = list(o.meta)
+            m.children = rec(n.children, q) + [c.copy() for c in o.children if c.opq]
+            out.append(m)
+        return out
+    return rec(trees[-1], ()) + [c.copy() for c in trees[0] if c.opq]
+
+
+def kn_render(forest):
+    K = _kinds()
+    return kinds_norm(K.render(forest))
+
+
 class DiffKinds:
     """C06 / C13 on the implementation for the node kinds the Coq model leaves out: anydata and anyxml nodes whose values
-    have every representation (data tree, XML / JSON / plain string, none) and change between A and B in every combination,
-    at top level, nested and inside list instances; metadata on created / deleted / replaced / unchanged nodes; opaque
-    nodes in A and / or B.  Laws, judged on the extended dump of impl/t_c14x.c (value type and content of anydata, metadata,
-    opaque nodes): diff(A,A) is empty, apply(diff(A,B),A) = B, the same after printing and parsing the diff, and (C13)
-    apply(reverse(diff(A,B)),B) = A, apply(merge(diff(A,B),diff(B,C)),A) = C."""
+    have every representation (data tree, XML / JSON / plain string, empty string, none) and change between A and B in
+    every combination (other content, to / from empty, other representation of the same content), at top level, nested
+    and inside list instances; metadata on created / deleted / replaced / unchanged nodes; opaque nodes in A and / or B.
+    Laws, judged on the extended dump of impl/t_c14x.c (value type and content of anydata, metadata, opaque nodes):
+    diff(A,A) is empty, apply(diff(A,B),A) = B, the same after printing and parsing the diff, and (C13)
+    apply(reverse(diff(A,B)),B) = A, apply(merge(diff(A,B),diff(B,C)),A) = C.
+    What the implementation is known not to carry (metadata and opaque nodes of nodes that exist on both sides, the
+    representation of a reversed anydata value) is computed exactly and tagged; everything else must be exact."""
     driver = "t_c14x"
-    kinds = None
     quick_sanitize = False
 
     def __init__(self, part):
         self.part = part
         self.name = "difftree-kinds-" + part
-        self.idx = {}
+        self.info = {}
 
     def module(self, rng):
         K = _kinds()
         g = yanggen.SchemaGen(rng, adversarial=rng.random() < 0.3, state=False, userord=False)
         m = g.module()
-        for n in m.all_nodes():
-            if n.kind == "leaf" and n.default:
-                n.default = n.default.replace("\r", "")
-            elif n.kind == "leaf-list":
-                n.defaults = [d.replace("\r", "") for d in n.defaults]
         K.inject_any(rng, m, m.nodes, True, None, [0], 0.9)
         return m
 
-    def tree(self, rng, m, ig, base=None):
+    def tree(self, rng, m, ig, base=None, pm=0.0):
         K = _kinds()
         f = ig.forest(m)
         K.add_any(rng, f, m.nodes, 0.8)
         if base is not None:
             f = mix(rng, base, f, m.nodes)
             K.vary_any(rng, f, 0.5)
-        # empty values
         for n, _, _ in yanggen.walk(f):
-            if isinstance(n.schema, K.SAny) and rng.random() < 0.2:
+            if isinstance(n.schema, K.SAny) and rng.random() < 0.15:
                 n.value = ""
-        for n, _, _ in yanggen.walk(f):
-            n.meta = [] if rng.random() < 0.7 else n.meta
-        K.add_meta(rng, f, rng.choice([0.0, 0.1, 0.3]))
+            if n.meta and rng.random() < 0.5:
+                n.meta = []
+        K.add_meta(rng, f, pm)
         return f
+
+    def any_edits(self, rng, s, t, dump, S, pool, p):
+        """the other representations of anydata values, by node index in the parsed tree t"""
+        K = _kinds()
+        for i, (n, _, _, _) in enumerate(K.flat(K.parse_xdump(dump))):
+            if not kn_is_any(S, n) or rng.random() >= p:
+                continue
+            r = rng.random()
+            if r < 0.6:
+                s.add("xanyset", "t%d#%d" % (t, i), rng.choice("sxj"), hexs(rng.choice(pool)))
+            elif r < 0.8:
+                s.add("xanyset", "t%d#%d" % (t, i), "t", "t%d" % rng.choice([14, 15]))
+            else:
+                s.add("xanyset", "t%d#%d" % (t, i), "N", "-")
 
     def gen(self, rng, tier, scale=1.0):
         K = _kinds()
         rng = private_rng(rng, self.name)
-        n = max(1, int((6000 if tier == "thorough" else 500) * scale))
+        n = max(1, int((6000 if tier == "thorough" else 400) * scale))
         pre = []
         for i in range(n):
             m = self.module(rng)
             ig = yanggen.InstGen(rng, meta_prob=0.0)
             ig.edp = 0.4
-            a = self.tree(rng, m, ig)
-            b = self.tree(rng, m, ig, a) if rng.random() < 0.9 else self.tree(rng, m, ig)
-            c = self.tree(rng, m, ig, b) if rng.random() < 0.8 else [x.clone() for x in a]
+            pm = rng.choice([0.0, 0.0, 0.1, 0.3])
+            a = self.tree(rng, m, ig, None, pm)
+            b = self.tree(rng, m, ig, a, pm) if rng.random() < 0.9 else self.tree(rng, m, ig, None, pm)
+            c = self.tree(rng, m, ig, b, pm) if rng.random() < 0.8 else [x.clone() for x in a]
             s = Script()
             s.ctx()
             s.mod(m.yang())
-            for t, f in ((0, a), (1, b), (9, c)):
+            for t, f in ((0, a), (1, b), (9, c), (14, a[:2]), (15, c[-2:])):
                 s.add("parse", "c0", "t%d" % t, "x", 0x020000, 0x2, hexs(K.to_xml(f)))
             s.add("xdump", "t0"); s.add("xdump", "t1"); s.add("xdump", "t9")
-            pre.append((m, a, b, c, s))
-        outs = K.stage1(["c14x\t" + "\t".join(p[4].cmds) for p in pre])
+            pre.append((m, s))
+        outs = K.stage1(["c14x\t" + "\t".join(p[1].cmds) for p in pre])
         L = []
-        for (m, a, b, c, s0), out in zip(pre, outs):
+        for (m, s0), out in zip(pre, outs):
             r = results(out)
-            if len(r) < 9 or r[1] != "0" or rc(r[2]) != 0 or rc(r[3]) != 0 or rc(r[4]) != 0:
+            if len(r) < 10 or r[1] != "0" or any(rc(x) != 0 for x in r[2:7]):
                 continue
             S = K.schema_desc(m)
             s = Script()
-            s.cmds = list(s0.cmds[:5])
-            # other value representations / opaque nodes, by node index in the parsed trees
-            use_opq = rng.random() < 0.25
-            for t, d in ((0, r[5]), (1, r[6]), (9, r[7])):
-                forest = K.parse_xdump(d)
-                ed = K.plan_edits(rng, forest, S, m.ns, p_any=rng.choice([0.0, 0.3, 0.7]), p_opq=0.6 if use_opq else 0.0)
-                ed = [e for e in ed if not (e[0] == "any" and e[2] == "b")]      # (LYB values: not comparable by content)
-                K.emit_edits(s, ed, 0, t, 9 if t != 9 else 0)
+            s.cmds = list(s0.cmds[:7])
+            w = K.word(rng)
+            pool = ["<q>%s</q>" % w, '{"q":"%s"}' % w, w, K.word(rng), ""]
+            p_any = rng.choice([0.0, 0.4, 0.8, 1.0])
+            use_opq = rng.random() < 0.3
+            for t, d in ((0, r[7]), (1, r[8]), (9, r[9])):
+                self.any_edits(rng, s, t, d, S, pool, p_any)
+                if use_opq and rng.random() < 0.7:
+                    ed = K.plan_edits(rng, K.parse_xdump(d), S, m.ns, p_any=0.0, p_opq=0.7)
+                    K.emit_edits(s, ed, 0, t, 14)
             ix = {}
             ix["A"] = s.add("xdump", "t0"); ix["B"] = s.add("xdump", "t1"); ix["C"] = s.add("xdump", "t9")
             ix["daa_rc"] = s.add("diff", "t0", "t0", DIFF_DEFAULTS, "t4"); ix["daa"] = s.add("xdump", "t4")
             ix["d_rc"] = s.add("diff", "t0", "t1", DIFF_DEFAULTS, "t2")
             s.add("dup", "t0", "t3", DUPF); ix["ap_rc"] = s.add("apply", "t3", "t2"); ix["ap"] = s.add("xdump", "t3")
-            fmt = "b" if len(L) % 2 else "x"
+            fmt = "xjb"[len(L) % 3]
             s.add("dup", "t0", "t16", DUPF)
             ix["rt_rc"] = s.add("rt", "t2", "t5", fmt, 1, 0x010000, 0, "c0")
             ix["rap_rc"] = s.add("apply", "t16", "t5"); ix["rap"] = s.add("xdump", "t16")
@@ -609,54 +685,75 @@ class DiffKinds:
             ix["map_rc"] = s.add("apply", "t12", "t11"); ix["map"] = s.add("xdump", "t12")
             ix["A2"] = s.add("xdump", "t0"); ix["B2"] = s.add("xdump", "t1")
             line = "c14x\t" + "\t".join(s.cmds)
-            self.idx[line] = ix
+            self.info[line] = (ix, S, fmt)
             L.append(line)
         return L
 
-    def facts(self, line, out):
-        r = results(out)
-        ix = self.idx.get(line)
-        if ix is None:
-            return None
-        return {k: r[v] for k, v in ix.items()}
-
+    # -------------------------------------------------------------------------------------------
     def judge(self, line, out):
-        if out.startswith("CRASH(") or out == "TIMEOUT":
-            return (None, "crash: " + out)
-        g = self.facts(line, out)
-        if g is None:
+        K = _kinds()
+        inf = self.info.get(line)
+        if inf is None:
             return None
+        ix, S, fmt = inf
+        if out.startswith("CRASH(") or out == "TIMEOUT":
+            return self.crash(line, out, ix, S)
+        r = results(out)
+        g = {k: r[v] for k, v in ix.items()}
         a, b, c = g["A"], g["B"], g["C"]
         if g["A2"] != a or g["B2"] != b:
             return (None, "diff / apply modified its inputs")
+        A, B, C = K.parse_xdump(a), K.parse_xdump(b), K.parse_xdump(c)
         if self.part == "C06":
             if g["daa_rc"] != "0" or g["daa"] not in ("", "empty"):
                 return (None, "diff(A,A) is not empty: " + g["daa"][:200])
             if g["d_rc"] != "0":
                 return (None, "lyd_diff_siblings failed: " + g["d_rc"])
-            for what, krc, kd in (("apply(diff(A,B),A)", "ap_rc", "ap"), ("apply(parse(print(diff(A,B))),A)", "rap_rc", "rap")):
-                if what.startswith("apply(parse") and rc(g["rt_rc"]) != 0:
-                    return (None, "printing / parsing the diff failed: " + g["rt_rc"])
-                j = self.compare(what, g[krc], g[kd], b, roundtrip=what.startswith("apply(parse"))
-                if j:
-                    return j
-            return None
-        if g["d_rc"] != "0" or not g["ap_rc"].startswith("0") or kinds_norm(g["ap"]) != kinds_norm(b):
+            j = self.compare("apply(diff(A,B),A)", g["ap_rc"], g["ap"], b, kn_render(kn_carry(S, [A, B])))
+            if j:
+                return j
+            if g["rt_rc"].startswith("P6") and fmt == "b":
+                return None        # the LYB printer refuses anydata values that are not data trees (not a diff matter)
+            if rc(g["rt_rc"]) != 0:
+                return (None, "printing / parsing the diff (%s) failed: %s" % (fmt, g["rt_rc"]))
+            return self.compare("apply(parse(print(diff(A,B))),A)", g["rap_rc"], g["rap"], b, kn_render(kn_carry(S, [A, B])),
+                                rt=fmt)
+        if g["d_rc"] != "0" or not g["ap_rc"].startswith("0"):
             return None                   # a C06 matter
+        if kinds_norm(g["ap"]) not in (kinds_norm(b), kn_render(kn_carry(S, [A, B]))):
+            return None
         if g["rev_rc"] != "0":
             return (None, "lyd_diff_reverse_all failed: " + g["rev_rc"])
-        j = self.compare("apply(reverse(diff(A,B)),B)", g["vap_rc"], g["vap"], a)
+        j = self.compare("apply(reverse(diff(A,B)),B)", g["vap_rc"], g["vap"], a, kn_render(kn_carry(S, [B, A])))
         if j:
             return j
         if g["d2_rc"] != "0":
             return None
         if g["mg_rc"] != "0":
             return (None, "lyd_diff_merge_all failed: " + g["mg_rc"])
-        return self.compare("apply(merge(diff(A,B),diff(B,C)),A)", g["map_rc"], g["map"], c)
+        return self.compare("apply(merge(diff(A,B),diff(B,C)),A)", g["map_rc"], g["map"], c, kn_render(kn_carry(S, [A, B, C])))
 
-    def compare(self, what, arc, got, exp, roundtrip=False):
+    def crash(self, line, out, ix, S):
+        return (None, "crash: " + out)
+
+    def compare(self, what, arc, got, exp, carried, rt=None):
         if not arc.startswith("0"):
             return (None, "%s failed: %s" % (what, arc))
-        if kinds_norm(got) == kinds_norm(exp):
+        kw = {}
+        if rt:
+            kw = {"anyrep": False, "dflt": rt == "b"}
+        g = kinds_norm(got, **kw)
+        if g == kinds_norm(exp, **kw):
             return None
-        return (None, "%s differs from the expected tree: got %s expected %s" % (what, kinds_norm(got)[:300], kinds_norm(exp)[:300]))
+        if rt:
+            carried = kinds_norm(carried, **kw)
+        if g == carried:
+            m = kinds_norm(exp, meta=False, **kw) != kinds_norm(carried, meta=False, **kw)
+            return ("diff-ignores-opaque" if m else "diff-ignores-metadata",
+                    "%s: metadata / opaque nodes of nodes present on both sides are those of the first tree" % what)
+        return (None, "%s differs from the expected tree:\n%s" % (what, kn_delta(g, kinds_norm(exp, **kw))))
+
+
+def kn_delta(got, exp):
+    import difflib
+    return "\n".join(list(difflib.unified_diff(got.split(";"), exp.split(";"), "got", "expected", lineterm="", n=1))[:40])
